@@ -3,7 +3,7 @@ from __future__ import annotations
 
 from typing import List, Optional, Tuple
 
-from .. import consteval, pipeline, sym
+from .. import normal, consteval, pipeline, render, sym
 from ..model import AnalysisError, Repo
 from ..report import Run
 from ..sym import T, const, param
@@ -73,7 +73,22 @@ def listset(t: T):
         return bx, out
     if t.op == "const" and isinstance(t.a[0], tuple):
         return None, [(const(v), ()) for v in t.a[0]]
+    if t.op == "call" and t.a[0] == T("global", ("itertools.compress",)):
+        got = render.listify(t)
+        if got is not None:
+            return None, got
     return t, []
+
+
+def _in_tuple_as_or(t: T) -> T:
+    """x in (a, b)  ->  x == a or x == b   (tuple / list literals only)"""
+    def fn(x: T) -> T:
+        if x.op == "cmp" and x.a[0] in ("in", "not in") and x.a[2].op in ("tuple", "list") and x.a[2].a[0] \
+                and not any(i.op == "star" for i in x.a[2].a[0]):
+            o = T("bool", ("or", tuple(T("cmp", ("==", x.a[1], i)) for i in x.a[2].a[0])))
+            return o if x.a[0] == "in" else T("not", (o,))
+        return x
+    return normal.rewrite(t, fn)
 
 
 def class_of_first_record_ne(pred: T) -> Optional[T]:
@@ -145,7 +160,7 @@ def check(repo: Repo, run: Run) -> None:
     rec = recs["traces"]
     if rec.notes:
         raise AnalysisError(f"traces(): unsupported construct: {rec.notes[0]}")
-    ret = rec.return_term()
+    ret = normal.accum_to_comp(rec, rec.return_term())
     src, stages = pipeline.parse(ret)
     ok_src = (src.op == "call" and src.a[0].op == "attr" and src.a[0].a[1] == "feed_generator"
               and src.a[0].a[0].op == "call"
@@ -174,7 +189,7 @@ def check(repo: Repo, run: Run) -> None:
             run.ob("R5", MOD, "traces", f"event stage {s.kind}", False,
                    f"the events fed to the decoder go through a {s.kind} stage", line=fn.lineno)
             continue
-        body = pipeline.predicate_body(s.fn)
+        body = pipeline.resolve_predicate(repo, interp, ci, s.fn)
         if body is None:
             raise AnalysisError(f"traces(): event predicate not recognised: {sym.pretty(s.fn)[:80]}")
         nb = N(body)
@@ -239,7 +254,7 @@ def check(repo: Repo, run: Run) -> None:
     for s in stages:
         if s.kind != "filter":
             continue
-        body = pipeline.predicate_body(s.fn)
+        body = pipeline.resolve_predicate(repo, interp, ci, s.fn)
         if body is None:
             continue
         k = class_of_first_record_ne(N(body))
@@ -312,7 +327,7 @@ def check(repo: Repo, run: Run) -> None:
         fp = A(SELF, "filter_process")
         want_pred = N(T("bool", ("or", (T("cmp", ("==", fp, T("call", (T("builtin", ("str",)), (pid,), ())))),
                                         T("cmp", ("==", fp, name))))))
-        gotp = N(prec.return_term())
+        gotp = N(_in_tuple_as_or(prec.return_term()))
         run.ob("R4", MOD, proc[0].fn.a[1], "predicate", gotp == want_pred,
                "" if gotp == want_pred else
                f"the process predicate is `{sym.pretty(gotp)[:200]}`; the property requires the first record's thread to be "
